@@ -5,7 +5,7 @@ ids="$@"; [ -z "$ids" ] && ids=$(ls /verif/refactors)
 for r in $ids; do
   W=/var/tmp/wv-rf-$r; git -C /repo worktree remove --force $W 2>/dev/null; rm -rf $W
   git -C /repo worktree add --detach $W HEAD -q || exit 2
-  git -C $W apply /verif/refactors/$r/patch.diff || { echo "$r: patch does not apply"; git -C /repo worktree remove --force $W; continue; }
+  git -C $W apply --3way /verif/refactors/$r/patch.diff 2>/dev/null || { echo "$r: patch does not apply"; git -C /repo worktree remove --force $W; continue; }
   /verif/lib/refactortest.sh $W
   git -C /repo worktree remove --force $W; rm -rf $W /var/tmp/wv-ref/$(basename $W)
 done
